@@ -26,7 +26,9 @@ func runC18(c *Ctx) {
 	c.Rule("C18.O4", "E5", "nbhttp.Stop: shutdown flag, listeners, then core Stop; stopListeners stops the mux in mixed mode; the stop hook stops both pools and replaces the executors; Shutdown closes tracked connections before delegating", 4)
 	c.Rule("C18.O5", "E4", "lmux.Stop closes each underlying listener and the close channel; ChanListener.Accept selects on the close channel", 2)
 	c.Rule("C18.O11", "E4", "nbhttp Shutdown's wait loop closes the tracked connections on every iteration, not only before the loop: connections that appear in the tables after the first sweep are closed too", 1)
-	c.Rule("C18.O7", "E4", "the blocking readers' deferred clean-up removes the connection from the tracked set (delete(engine.conns, key) under Engine.mux), reports the close and releases the load slot on every path: Shutdown waits for the set to drain", 2)
+	c.Rule("C18.O12", "E4", "a dialer whose registration fails is torn down without a close notification (Conn.p is nil when addDialer runs the teardown): DialAsyncTimeout releases the connection WaitGroup count itself on that error, a notifying teardown would release it twice and Stop's accounting goes negative", 2)
+	c18DialerFailure(c)
+	c.Rule("C18.O7", "E4", "the blocking readers' deferred clean-up removes the connection from the tracked set (delete(engine.conns, key) under Engine.mux), reports the close and releases the load slot on every path: Shutdown waits for the set to drain; it closes the connection it was reading unless that was transferred", 4)
 	c.Rule("C18.O8", "E4", "every torn-down connection reaches the close notification that releases the connection WaitGroup (same rule as C03.O9): Stop waits on it", 1)
 	c.Rule("C18.O9", "E5", "the listener mux's close channel is created once, in its constructor: the channel listeners copy it when they are made, so a later re-assignment leaves them waiting on a channel nobody closes", 1)
 	c.Rule("C18.O10", "E5", "the poller's shutdown flag is written only by poller.stop: a loop that resets it when it starts undoes a Stop that ran before the poller goroutine was scheduled, and Stop then waits for that poller forever", 1)
@@ -617,6 +619,20 @@ func c18ReaderCleanup(c *Ctx) {
 			}
 		}
 		c.Cond(bad == "", "C18.O7", key, c.FnPos(cl), "untrack under Engine.mux, _onClose and decrease on every path", bad)
+
+		// the clean-up closes the connection it was reading, unless it was transferred to the poller
+		closes := false
+		for _, cs := range c.P.Calls(cl, func(name string, _ ir.CallSite) bool { return strings.HasSuffix(name, ".Close") }) {
+			if fi.HasFact(cs.In, func(ft ir.Fact) bool {
+				k, set, ok := c.P.BoolFieldTest(ft.Cond, ft.Truth)
+				return ok && k == "nbhttp.Conn.Trasfered" && !set
+			}) {
+				closes = true
+			}
+		}
+		c.Cond(closes, "C18.O7", fnKey(c.P, fn, "clean-up closes the connection"), c.FnPos(cl), "Close on the not-transferred edge",
+			"the reader's clean-up does not close the connection it was reading (its sibling does): after a parse error or a protocol error the goroutine ends, the close callbacks run, and the socket stays open until the peer gives up; Stop does not close it either")
+
 	}
 }
 
@@ -652,4 +668,45 @@ func c18ShutdownWriters(c *Ctx) {
 	got := strings.Join(sortedKeys(writers), ",")
 	c.Cond(got == "(*nbio.poller).stop", "C18.O10", "writers of nbio.poller.shutdown", where, got,
 		"the shutdown flag is written by ["+got+"] (e.g. at "+where+"): the poller goroutine's own reset at the start of its loop overwrites a stop() that ran before the goroutine was scheduled (Stop right after Start, or under CPU load), the wake-up is consumed, and Engine.Stop waits in WaitGroup.Wait for a poller that never exits")
+}
+
+// c18DialerFailure: O12.
+func c18DialerFailure(c *Ctx) {
+	fn := c.Fn("C18.O12", "(*nbio.poller).addDialer")
+	if fn == nil {
+		return
+	}
+	fi := c.P.Info(fn)
+	const fP = "nbio.Conn.p"
+	var sets []ssa.Instruction
+	isClear := func(in ssa.Instruction) bool {
+		st, ok := in.(*ssa.Store)
+		if !ok {
+			return false
+		}
+		fa, ok := st.Addr.(*ssa.FieldAddr)
+		return ok && c.P.FieldKey(fa) == fP && ir.IsNilConst(st.Val)
+	}
+	for _, st := range c.P.StoresTo(fn, fP) {
+		if !ir.IsNilConst(st.Val) {
+			sets = append(sets, st)
+		}
+	}
+	n := 0
+	for _, cs := range c.P.Calls(fn, func(name string, _ ir.CallSite) bool {
+		return name == "(*nbio.Conn).closeWithError" || name == "(*nbio.Conn).closeWithErrorWithoutLock"
+	}) {
+		n++
+		key := c.siteKey(fn, "failure teardown", n)
+		notifies := false
+		if len(sets) > 0 {
+			vis, _ := fi.Reach(sets, isClear)
+			notifies = vis[cs.In]
+		}
+		c.Cond(!notifies, "C18.O12", key, c.Pos(cs.In), "Conn.p is nil here: the teardown does not reach deleteConn / the close notification",
+			"the teardown at "+c.Pos(cs.In)+" runs with Conn.p set, so it reaches deleteConn and the close notification, which releases the connection WaitGroup count; DialAsyncTimeout releases it again when addDialer returns the error: the counter goes negative (panic) or Stop returns before all close notifications were delivered")
+	}
+	if n == 0 {
+		c.Unres("C18.O12", fnKey(c.P, fn, "failure teardown"), "no teardown call found in addDialer")
+	}
 }
